@@ -506,6 +506,9 @@ func sitesMain(w *out.W, tier string) {
 			nt(fmt.Sprintf("ra%d/%v", b, p), na, p)
 		}
 	}
+
+	// ---- qo: specutil.QualifyObjects through MarshalHCL of multi-schema realms (qualify.go)
+	qualifySites(w)
 }
 
 // r2perm: a random permutation of 1..n.
